@@ -1256,6 +1256,21 @@ def _opt_or_else(eng, st, fr, t, args, dest, target):
     return DEFER
 
 
+@model('std::option::Option::<T>::filter')
+def _opt_filter(eng, st, fr, t, args, dest, target):
+    vn, v = variant_of(eng, st, args[0], OPT)
+    if vn != 'Some':
+        return NONE
+    pv = payload(eng, st, v, 'Some')
+    ref = mk_ref(eng.temp(st, pv), ())
+
+    def cont(st, fr2, dest_, target_, rv):
+        keep = eng.decide(st, rv)
+        eng.finish_call(st, fr2, dest, target, SOME(pv) if keep else NONE)
+    eng.call_callable(st, args[1], [ref], ('seq', dest, target, cont))
+    return DEFER
+
+
 @model('std::option::Option::<T>::or')
 def _opt_or(eng, st, fr, t, args, dest, target):
     vn, v = variant_of(eng, st, args[0], OPT)
